@@ -3,7 +3,7 @@
     Caco/NamesProofs.v, Caco/FileSetProofs.v or Caco/NamesGen.v.  All
     statements quantify over arbitrary byte strings. *)
 From Coq Require Import List NArith Bool String Permutation.
-From Verif Require Import Lib.Path Lib.Utf8 Caco.Names Caco.NamesProofs Caco.Match Caco.MatchProofs Caco.FileSet Caco.FileSetProofs Caco.FileSetIgnore Caco.FileSetWalk
+From Verif Require Import Lib.Path Lib.Utf8 Caco.Names Caco.NamesProofs Caco.Match Caco.MatchProofs Caco.FileSet Caco.FileSetProofs Caco.FileSetIgnore Caco.FileSetWalk Caco.MatchComplete
   Caco.NamesGenDefs Caco.NamesGen Gen.CacoConsts.
 Import ListNotations.
 Local Open Scope N_scope.
@@ -272,10 +272,51 @@ Theorem C12_match_sound : forall pat name chunks,
 Proof. exact go_match_sound. Qed.
 Print Assumptions C12_match_sound.
 
-(** The converse (the greedy chunk loop finds every declarative match) is
-    not proved; it is exercised by the exhaustive small-pattern stream. *)
+(** The converse - the greedy chunk loop finds every declarative match - for
+    patterns without character classes on names whose runes are single bytes,
+    and for patterns of literals and '*' on any name (Caco/MatchComplete.v): a
+    chunk of literals and '?' that fits at the first offset and again behind a
+    gap free of '/' cannot contain a '/', so the next '*' can swallow the
+    difference. *)
+Theorem C12_match_complete_partial : forall pat name chunks,
+  parse_pattern pat = POk chunks -> chunks_plain chunks = true ->
+  (chunks_lits chunks = true \/ narrow name = true) ->
+  dmatch chunks name = true -> go_match pat name = MTrue.
+Proof. exact go_match_complete_partial. Qed.
+Print Assumptions C12_match_complete_partial.
+
+(** ... so for these [Match] decides the declarative reading. *)
+Theorem C12_match_exact_partial : forall pat name chunks,
+  parse_pattern pat = POk chunks -> chunks_plain chunks = true ->
+  (chunks_lits chunks = true \/ narrow name = true) ->
+  (go_match pat name = MTrue <-> dmatch chunks name = true).
+Proof. exact go_match_exact_partial. Qed.
+Print Assumptions C12_match_exact_partial.
+
+(** The full statement is FALSE for Go's matcher, in two ways (both are what
+    [path.Match] of the toolchain does; corpus cases of the match stream): a
+    character class matches '/', which no later '*' can swallow, and '*' skips
+    bytes where '?' takes runes. *)
 Definition stmt_match_complete : Prop := forall pat name chunks,
   parse_pattern pat = POk chunks -> dmatch chunks name = true -> go_match pat name = MTrue.
+
+Theorem C12_match_class_incomplete_refuted :
+  let pat := bs "*[^a]*b" in let name := bs "x/b" in
+  exists chunks, parse_pattern pat = POk chunks /\ dmatch chunks name = true /\
+                 go_match pat name = MFalse.
+Proof. exact match_class_incomplete_refuted. Qed.
+Print Assumptions C12_match_class_incomplete_refuted.
+
+Theorem C12_match_wide_rune_incomplete_refuted :
+  let pat := bs "*??*X" in let name := [240; 144; 128; 128; 88]%N in
+  exists chunks, parse_pattern pat = POk chunks /\ dmatch chunks name = true /\
+                 go_match pat name = MFalse /\ chunks_plain chunks = true.
+Proof. exact match_wide_rune_incomplete_refuted. Qed.
+Print Assumptions C12_match_wide_rune_incomplete_refuted.
+
+Theorem C12_match_complete_refuted : ~ stmt_match_complete.
+Proof. exact stmt_match_complete_refuted. Qed.
+Print Assumptions C12_match_complete_refuted.
 
 (** '*' and '?' never match across a directory separator: a matched name has
     exactly the literal '/'s of the pattern, plus at most one per character
